@@ -874,11 +874,12 @@ func Rest(val Object) Object {
 	case Null:
 		return NULL
 	case String:
-		if len(v.Value) <= 1 {
+		runes := []rune(v.Value)
+		if len(runes) <= 1 { // (runes, not bytes: rest("é") is nil like rest("a"))
 			return NULL
 		}
 		// rest of the string
-		return String{Value: string([]rune(v.Value)[1:])}
+		return String{Value: string(runes[1:])}
 	case SmallArray:
 		if v.len <= 1 {
 			return NULL
